@@ -61,6 +61,12 @@ func TestVerifC26_Parse(t *testing.T) {
 		if pv != nil {
 			t.Fatalf("ParseString(%q) panicked: %v", text, pv)
 		}
+		if g.syntaxErr {
+			if err == nil {
+				t.Fatalf("ParseString(%q) accepted text that is not in the grammar (a foreign number literal, or a positional id / conditional bound with a leading zero): %s", text, q)
+			}
+			return
+		}
 		if g.wantErr != "" {
 			// the query holds a construct that must be rejected; when it holds two, either error may come first
 			ok := err != nil && ((g.wantErr == "range" || g.overflowCond) && strings.HasPrefix(err.Error(), intOutOfRangeError) ||
